@@ -34,6 +34,8 @@ const KNOWN_VERBS: &[&str] = &[
 const MIDDLES: &[&str] = &[
     "n0", "n1", "#c0", "#c1", "&l0", "#c0,#c1", "n0,n1", "a:b", "k:", "*!*@::1", "+b", "+o-v",
     "x", "~@#c0", "0", "irc.irc", "é", "a::b:c", "#c:0", "-", "+k",
+    // white space that is not a blank does not separate parameters
+    "a\u{a0}b", "#my\u{3000}room", "x\u{2003}y",
 ];
 
 const TRAILS: &[&str] = &[
